@@ -49,3 +49,7 @@ def run(project, rep):
     rep.rule("Q-R9", "the sign-on says what the client was configured with: every constructor argument is stored (N-R9); a profile request, which is given no credentials, carries only the placeholder (N-R6)")
     rep.run(N.n_r9_constructor_params, project, rep)
     rep.run(N.n_r6_placeholder, project, rep)
+    from .. import rules_values as _V15
+    rep.run(_V15.v_r15_no_html5_entity_decoder, project, rep)
+    from .. import rules_wire as _W2b
+    rep.run(_W2b.l_r2b_every_handwritten_producer_escapes, project, rep)
